@@ -401,3 +401,129 @@ Proof.
   intros HF. induction HF as [|nd d nds ds [H1 _] HF IH]; [constructor|].
   constructor; [|exact IH]. exists (fst (fst nd)). exact H1.
 Qed.
+
+(* the number of keys after the operation stays below 2^62 *)
+Definition room (t : tables) (r : dbresult) : Prop :=
+  N.of_nat (length (key_names t)) + 1 + N.of_nat (length (dr_deps r)) < TWO62.
+
+Lemma lookup_pure t k : WI t -> lookup_rule_result t k = pure_lookup (key_names t) (rule_results t) k.
+Proof.
+  intros HW. unfold lookup_rule_result. destruct (lookup_rule_result_st t k) as [t' o] eqn:E.
+  destruct (lookup_spec t k t' o HW E) as [_ [_ Ho]]. exact Ho.
+Qed.
+
+Theorem tables_roundtrip t k r : WI t -> room t r -> lookup_rule_result (set_rule_result t k r) k = Found r.
+Proof.
+  intros HW Hroom. destruct (set_rule_result_spec t k r HW) as [id [ds Hs]]. cbv zeta in Hs.
+  destruct Hs as [HW' [He [Hin [HF [Hrr [Hi Hm]]]]]].
+  rewrite lookup_pure by exact HW'. unfold pure_lookup.
+  destruct HW' as [HK' HC'].
+  rewrite (In_find_id _ _ _ (proj1 (proj2 HK')) Hin). rewrite Hrr, find_put_row_same.
+  unfold pure_decode, row_of. cbn [row_depblob row_value row_sig row_builtAt row_computedAt].
+  assert (Hmax : max_id (key_names (set_rule_result t k r)) < TWO62).
+  { destruct HW as [[_ [_ [_ Hd]]] _]. unfold room in Hroom. lia. }
+  rewrite depblob_roundtrip by (eapply rel_ids_ok; eassumption).
+  rewrite (pure_names_of_rel _ HK' _ _ HF). destruct r; reflexivity.
+Qed.
+
+Theorem set_rule_result_WF t k r : WF t -> room t r -> WF (set_rule_result t k r).
+Proof.
+  intros [HW HR] Hroom. destruct (set_rule_result_spec t k r HW) as [id [ds Hs]]. cbv zeta in Hs.
+  destruct Hs as [HW' [He [Hin [HF [Hrr [Hi Hm]]]]]].
+  split; [exact HW'|]. rewrite Hrr. intros id0 r0 H0.
+  destruct (N.eq_dec id0 id) as [->|Hne].
+  - rewrite find_put_row_same in H0. inversion H0; subst. split; [exists k; exact Hin|].
+    exists ds. unfold row_of. cbn [row_depblob]. split; [|eapply rel_ids_known; exact HF].
+    apply depblob_roundtrip. eapply rel_ids_ok; [exact HF|].
+    destruct HW as [[_ [_ [_ Hd]]] _]. unfold room in Hroom. lia.
+  - rewrite find_put_row_other in H0 by exact Hne.
+    destruct (HR id0 r0 H0) as [A B]. split; [eapply id_known_ext | eapply rowOK_ext]; eassumption.
+Qed.
+
+Lemma pure_names_ext kn kn' ds : KN kn -> KN kn' -> kn_ext kn kn' ->
+  Forall (fun d : dbdep => id_known kn (fst (fst d))) ds -> pure_names kn' ds = pure_names kn ds.
+Proof.
+  intros HK HK' He HF. induction HF as [|[[id oo] su] ds [k0 Hk] HF IH]; [reflexivity|].
+  cbn [fst] in Hk. cbn [pure_names].
+  rewrite (In_find_name kn k0 id (proj1 HK) Hk), (In_find_name kn' k0 id (proj1 HK') (He _ Hk)), IH.
+  reflexivity.
+Qed.
+
+Lemma pure_decode_ext kn kn' r : KN kn -> KN kn' -> kn_ext kn kn' -> rowOK kn r ->
+  pure_decode kn' r = pure_decode kn r.
+Proof.
+  intros HK HK' He [ds [Hd HF]]. unfold pure_decode. rewrite Hd.
+  rewrite (pure_names_ext kn kn' ds HK HK' He HF). reflexivity.
+Qed.
+
+Lemma KN_In_fst_inj kn id k1 k2 : KN kn -> In (id, k1) kn -> In (id, k2) kn -> k1 = k2.
+Proof.
+  intros HK H1 H2. apply (In_find_name kn _ _ (proj1 HK)) in H1. apply (In_find_name kn _ _ (proj1 HK)) in H2.
+  congruence.
+Qed.
+
+Theorem tables_frame t k r k' : WF t -> k' <> k ->
+  lookup_rule_result (set_rule_result t k r) k' = lookup_rule_result t k'.
+Proof.
+  intros [HW HR] Hne. destruct (set_rule_result_spec t k r HW) as [id [ds Hs]]. cbv zeta in Hs.
+  destruct Hs as [HW' [He [Hin [HF [Hrr [Hi Hm]]]]]].
+  rewrite (lookup_pure _ k' HW'), (lookup_pure _ k' HW). unfold pure_lookup. rewrite Hrr.
+  destruct HW as [HK HC]. destruct HW' as [HK' HC'].
+  set (kn' := key_names (set_rule_result t k r)) in *.
+  destruct (find_id (key_names t) k') as [id'|] eqn:E.
+  - pose proof (find_id_In _ _ _ E) as Hin0. pose proof (He _ Hin0) as Hin'.
+    rewrite (In_find_id kn' k' id' (proj1 (proj2 HK')) Hin').
+    assert (Hid : id' <> id).
+    { intros ->. apply Hne. eapply KN_In_fst_inj; eassumption. }
+    rewrite find_put_row_other by exact Hid.
+    destruct (find_row (rule_results t) id') as [r0|] eqn:Er; [|reflexivity].
+    apply pure_decode_ext; try assumption. apply (HR id' r0 Er).
+  - destruct (find_id kn' k') as [id'|] eqn:E'; [|reflexivity].
+    pose proof (find_id_In _ _ _ E') as Hin'.
+    assert (Hid : id' <> id).
+    { intros ->. apply Hne. eapply KN_In_fst_inj; eassumption. }
+    rewrite find_put_row_other by exact Hid.
+    destruct (find_row (rule_results t) id') as [r0|] eqn:Er; [|reflexivity].
+    exfalso. destruct (HR id' r0 Er) as [[k0 Hk0] _].
+    assert (k0 = k') by (eapply KN_In_fst_inj; [exact HK' | apply He; exact Hk0 | exact Hin']). subst k0.
+    rewrite (In_find_id _ _ _ (proj1 (proj2 HK)) Hk0) in E. discriminate.
+Qed.
+
+(* ---------- the invariant over operation sequences ---------- *)
+
+Lemma db_step_WI t o : WI t -> WI (db_step t o).
+Proof.
+  intros HW. destruct o as [k r|k|n|]; cbn [db_step].
+  - destruct (set_rule_result_spec t k r HW) as [id [ds Hs]]. apply Hs.
+  - destruct (lookup_rule_result_st t k) as [t' o] eqn:E. cbn [fst]. apply (lookup_spec t k t' o HW E).
+  - destruct HW as [HK HC]. split; [exact HK | exact HC].
+  - destruct HW as [HK HC]. split; [exact HK|]. split; cbn; discriminate.
+Qed.
+
+Lemma db_run_WI ops : forall t, WI t -> WI (db_run t ops).
+Proof.
+  induction ops as [|o ops IH]; intros t HW; [exact HW|]. cbn [db_run fold_left]. apply IH. apply db_step_WI. exact HW.
+Qed.
+
+(* what WI says, spelled out: the two directions are mutually inverse, each injective, and both caches agree
+   with the table *)
+Definition ids_coherent (t : tables) : Prop :=
+  (forall k id, find_id (key_names t) k = Some id <-> find_name (key_names t) id = Some k) /\
+  (forall k1 k2 id, find_id (key_names t) k1 = Some id -> find_id (key_names t) k2 = Some id -> k1 = k2) /\
+  (forall id1 id2 k, find_name (key_names t) id1 = Some k -> find_name (key_names t) id2 = Some k -> id1 = id2) /\
+  (forall k id, cache_find_id (cache_ids t) k = Some id -> find_id (key_names t) k = Some id) /\
+  (forall id k, find_name (cache_names t) id = Some k -> find_name (key_names t) id = Some k) /\
+  (forall k id, find_id (key_names t) k = Some id -> 1 <= id).
+
+Lemma WI_coherent t : WI t -> ids_coherent t.
+Proof.
+  intros [HK [C1 C2]]. split; [apply KN_inverse; exact HK|]. split; [apply KN_id_inj; exact HK|].
+  split; [apply KN_name_inj; exact HK|]. split; [|split].
+  - intros k id H. apply In_find_id; [apply HK | apply C1; exact H].
+  - intros id k H. apply In_find_name; [apply HK | apply C2; exact H].
+  - intros k id H. apply find_id_In in H. destruct HK as [_ [_ [H3 _]]]. rewrite Forall_forall in H3.
+    apply (H3 _ H).
+Qed.
+
+Theorem ids_inverse s c ops : ids_coherent (db_run (empty_tables s c) ops).
+Proof. apply WI_coherent. apply db_run_WI. apply WI_empty. Qed.
